@@ -502,7 +502,7 @@ def write_evidence(prop, tier, base, flavours, results, crashes, found, new, see
             "flavours": flavours,
             "crashes": len(crashes),
             "components_real": ["every header under /repo/src reached by the runs: sequential and OpenMP executors (plain and target/source), group/kernel interface, trees, containers, space index, counter kernel, and the compiler's outlined task bodies and capture blocks"],
-            "components_stub": ["libgomp (replaced at link time by sim/gompsim.cpp)", "Specx runtime (sim/stubs/specx/Legacy/SpRuntime.hpp; the real runtime is an empty submodule here): results for specx/specxtsm executors are conditional on the stub's reading of Specx's dependency semantics"],
+            "components_stub": ["libgomp (replaced at link time by sim/gompsim.cpp)", "Specx runtime (sim/stubs/specx/Legacy/SpRuntime.hpp; the real runtime is an empty submodule here): results for specx/specxtsm executors are conditional on the stub's reading of Specx's dependency semantics", "StarPU runtime (sim/stubs/starpu/starpu.h, CPU codelets only; StarPU is not installed): results for starpu/starputsm executors are conditional on the stub's reading of StarPU's sequential-consistency and access-mode semantics"],
             "known_findings_seen": [{"key": k, "runs": cnt} for (_, k, cnt) in seen_known],
             "violation_keys": [k for (k, _, _, _) in new],
             "framework_errors": (fw_errors + gate_failures)[:10],
